@@ -27,7 +27,7 @@ class H:
         return int(os.environ.get('VERIF_HARNESS_TIMEOUT', '2400' if tier == 'thorough' else '1500'))
 
     def line(self):
-        attrs = ' '.join(self.attrs)
+        attrs = ' '.join((['#[cfg(not(feature = "alloc"))]'] if 'nodefault' in self.flags else []) + self.attrs)
         return '%s!(%s %s, %s);' % (self.macro, attrs, self.name, self.call)
 
 
@@ -305,7 +305,39 @@ add('t_sendsync', 't_vectors_noalloc', 't_vectors_h()', props=['C15'], tier='t',
 
 
 # ---------------------------------------------------------------------------------------------------
-MODULES = ['k1_lib', 'k2_insert', 'k2_remove', 'k2_range', 'k2_misc', 'k1_handles', 'k1_types', 'k2_lazy', 'k1_rawparts', 'k1_heap', 'k1_misc', 'k1_mem', 'k1_views', 't_sendsync']
+# bounded stand-ins: the two per-element user-code loops; K3 real-memory cross-checks
+BL = 'len <= 8 elements, real memory, loop unwound (the loop calls user code: no loop contract can frame it in Kani 0.68)'
+for n in (1, 3, 8, 24):
+    add('k1_loops', 'drop_closure_%d' % n, 'drop_closure_h::<%d>()' % n, props=['C03', 'C05'], tier='q' if n in (3, 8) else 't', kind='bounded', bound=BL,
+        attrs=['#[kani::unwind(10)]'], flags=['nolc'], cost=15, macro='p')
+    add('k1_loops', 'clone_fn_%d' % n, 'clone_fn_h::<%d>()' % n, props=['C08', 'C03'], tier='q' if n in (3, 8) else 't', kind='bounded', bound=BL,
+        attrs=['#[kani::unwind(10)]'], flags=['nolc'], cost=30, macro='p')
+add('k1_loops', 'nop_clone', 'nop_clone_h()', props=['C08'], tier='q', cost=2, macro='p')
+B3 = 'real Stack<16> vector of u32 (capacity 4), every state and index in that bound, real copy_bytes unwound'
+add('k1_loops', 'k3_insert', 'k3_insert_h()', props=['C01', 'C05'], tier='q', kind='bounded', bound=B3, attrs=['#[kani::unwind(20)]'], flags=['nolc'], cost=60, macro='p')
+add('k1_loops', 'k3_remove', 'k3_remove_h()', props=['C01', 'C05'], tier='q', kind='bounded', bound=B3, attrs=['#[kani::unwind(20)]'], flags=['nolc'], cost=60, macro='p')
+
+
+# ---------------------------------------------------------------------------------------------------
+# C19: the same contracts on the --no-default-features build (no `alloc`, no Heap)
+import copy
+NA_BASE = ['insert_raw_fixed_e8', 'insert_typed_fixed_e8', 'push_raw_fixed_e8', 'splice_fixed_e8_k2', 'clone_fixed_e8', 'clone_empty_in_e8', 'drain_erased_e8',
+           'remove_drop_e8', 'swap_remove_move_e8', 'pop_drop_e8', 'insert_raw_e8', 'push_fixed_full_e8', 'insert_typed_fixed_full_e8', 'stack_build_e8_16',
+           'stack_build_e3_8', 'stackn_build_e8_2_16', 'stackn_insufficient_e8_2_15', 'empty_e8', 'iter_e8', 'get_e8', 'clear_e8', 'vecdrop_e8', 't_elements']
+QUICK_NA = {'insert_raw_fixed_e8', 'push_raw_fixed_e8', 'clone_fixed_e8', 'drain_erased_e8', 'remove_drop_e8', 'push_fixed_full_e8', 'stack_build_e8_16', 'stackn_build_e8_2_16', 'splice_fixed_e8_k2'}
+for nm in NA_BASE:
+    h0 = next(h for h in HS if h.name == nm)
+    h = copy.copy(h0)
+    h.name = nm + '_na'
+    h.props = {'C19'}
+    h.flags = set(h0.flags) | {'nodefault'}
+    h.tier = 'q' if nm in QUICK_NA else 't'
+    HS.append(h)
+add('k1_mem', 'default_is_empty_na', 'default_is_empty_h()', props=['C19'], tier='q', cost=2, macro='p', flags=['nodefault'])
+
+
+# ---------------------------------------------------------------------------------------------------
+MODULES = ['k1_lib', 'k2_insert', 'k2_remove', 'k2_range', 'k2_misc', 'k1_handles', 'k1_types', 'k2_lazy', 'k1_rawparts', 'k1_heap', 'k1_misc', 'k1_mem', 'k1_views', 't_sendsync', 'k1_loops']
 
 
 def write_instances(kv_dir, selected):
@@ -340,13 +372,13 @@ ASSUMPTIONS = [
 
 PROPS = {}
 
-PROPS['C01'] = dict(level='proof', lemmas=[], functions=[
+PROPS['C01'] = dict(level='proof', lemmas=['verus/lemmas.rs'], functions=[
     'lib.rs::copy_bytes', 'AnyVec::{insert,push,pop,remove,swap_remove,clear,get,at,len}', 'AnyVecRaw::{insert_unchecked,push_unchecked,reserve_one,index_check,type_check,clear}',
     'AnyVecTyped::{insert,push}', 'ops::{Pop,Remove,SwapRemove}::{new,bytes,consume}', 'TempValue::{move_into,drop,downcast}', 'LazyClone::move_into'],
     explanation='Each element-wise operation of the real code is verified, from every representation-invariant state (symbolic len <= cap), against the witness form of Vec\'s semantics; histories follow by induction (Verus lemma history_refines).')
-PROPS['C02'] = dict(level='proof', lemmas=[], functions=['AnyVec::{drain,splice}', 'ops::drain::Drain::{new,drop}', 'ops::splice::Splice::{new,drop}', 'iter::Iter cursor', 'utils::{move_elements_at,drop_elements_range,element_mut_ptr_at}'],
+PROPS['C02'] = dict(level='proof', lemmas=['verus/lemmas.rs'], functions=['AnyVec::{drain,splice}', 'ops::drain::Drain::{new,drop}', 'ops::splice::Splice::{new,drop}', 'iter::Iter cursor', 'utils::{move_elements_at,drop_elements_range,element_mut_ptr_at}'],
     explanation='drain/splice contracts from every state, every range, every consumption state (f front, b back).')
-PROPS['C03'] = dict(level='proof', lemmas=[], functions=['every K2 contract (ownership accounting at the witness)'], explanation='destroyed + handed out + visible == 1 for every value, in every operation contract.')
+PROPS['C03'] = dict(level='proof', lemmas=['verus/lemmas.rs'], functions=['every K2 contract (ownership accounting at the witness)'], explanation='destroyed + handed out + visible == 1 for every value, in every operation contract.')
 PROPS['C05'] = dict(level='proof', lemmas=[], functions=['every primitive recorder precondition over the relocating GhostMem'], explanation='every primitive call lies inside the current region.')
 PROPS['C06'] = dict(level='proof', lemmas=[], functions=['panic-view invariant at every call-out'], explanation='panic-view invariant at every call-out; misreporting replacement iterator.')
 PROPS['C07'] = dict(level='proof', lemmas=[], functions=['mem::forget of Pop/Remove/SwapRemove/Drain/Splice'], explanation='forget harnesses.')
@@ -358,15 +390,15 @@ PROPS['C08'] = dict(level='proof', lemmas=[], functions=['AnyVec::{clone,clone_e
     explanation='clone contract from every state incl. fixed-capacity targets; the element clone loop itself is a bounded K1 stand-in.')
 PROPS['C09'] = dict(level='proof', lemmas=[], functions=['AnyValueCloneable::lazy_clone', 'LazyClone::{move_into,clone_into,clone}', 'ElementPointer::clone_into', 'TempValue::clone_into'],
     explanation='creation/copy/drop of lazy clones fires no recorder; each consumption is exactly one clone call-out from the original source, chain depth 1..3, five source kinds.')
-PROPS['C10'] = dict(level='proof', lemmas=[], functions=['AnyVecRaw::{reserve,reserve_exact,shrink_to,shrink_to_fit,reserve_one}', 'AnyVec::with_capacity_in', 'HeapMem::{expand,resize}', 'Heap::build_with_size'],
+PROPS['C10'] = dict(level='proof', lemmas=['verus/lemmas.rs'], functions=['AnyVecRaw::{reserve,reserve_exact,shrink_to,shrink_to_fit,reserve_one}', 'AnyVec::with_capacity_in', 'HeapMem::{expand,resize}', 'Heap::build_with_size'],
     explanation='capacity contracts over the ghost backend (full domain) and the real HeapMem against the allocator protocol (full usize range).')
 PROPS['C11'] = dict(level='proof', lemmas=[], functions=['Stack::build', 'StackN::build', 'Mem::expand (default)', 'AnyVecRaw::{reserve_one,reserve,clone}', 'Splice::drop'],
     explanation='capacity formulas of the real builders on a grid; operations reach Mem::expand exactly when the result exceeds capacity (fixed-capacity ghost backend), and then before any effect.')
-PROPS['C12'] = dict(level='proof', lemmas=[], functions=['AnyVec::{as_bytes,as_bytes_mut,spare_bytes_mut,set_len}', 'AnyVecTyped::{as_ptr,as_mut_ptr,as_slice,as_mut_slice,spare_capacity_mut,set_len}', 'mem::dangling', 'StackMem/StackNMem/EmptyMem/HeapMem::as_ptr'],
+PROPS['C12'] = dict(level='proof', lemmas=['verus/lemmas.rs'], functions=['AnyVec::{as_bytes,as_bytes_mut,spare_bytes_mut,set_len}', 'AnyVecTyped::{as_ptr,as_mut_ptr,as_slice,as_mut_slice,spare_capacity_mut,set_len}', 'mem::dangling', 'StackMem/StackNMem/EmptyMem/HeapMem::as_ptr'],
     explanation='views are (base, len x size) / (base + len x size, (cap - len) x size) for every state; storage pointer alignment per backend.')
 PROPS['C13'] = dict(level='proof', lemmas=[], functions=['AnyVec::{get,get_mut,at,at_mut}', 'AnyVecTyped::{get,get_mut,at,at_mut}', 'iter::Iter::{next,next_back}', 'AnyValueMut::swap', 'AnyValueTypelessMut::swap_unchecked'],
     explanation='handle address == base + size x i for every index; swap on real memory for all handle-kind pairs (values symbolic; 3-element vectors: bounded).')
-PROPS['C14'] = dict(level='proof', lemmas=[], functions=['iter::Iter::{next,next_back,size_hint,len,clone}', 'ops::Iter::{next,next_back,size_hint,len}'],
+PROPS['C14'] = dict(level='proof', lemmas=['verus/lemmas.rs'], functions=['iter::Iter::{next,next_back,size_hint,len,clone}', 'ops::Iter::{next,next_back,size_hint,len}'],
     explanation='cursor contracts from every (index,end) state; interleavings by the Verus lemma.')
 PROPS['C15'] = dict(level='other', lemmas=[], functions=['unsafe impl Send/Sync for AnyVec, AnyVecTyped, ElementPointer, iter::Iter, TempValue', 'SatisfyTraits impls', 'Clone for AnyVec'],
     explanation='The property is a finite table of trait judgements. Each cell is an obligation on the real public types, evaluated by the Rust trait solver (impls! const) and discharged as a constant check; exhaustive over the table. Not covered: absence of methods guarded by where-clauses, and compile errors of constructor calls beyond the SatisfyTraits judgement.',
